@@ -106,6 +106,25 @@ fn gen_valid(r: &mut SplitMix) -> Vec<u8> {
         let n = *pick(r, &[16_383usize, 16_384, 16_385, 65_535, 65_536, 65_537]);
         t.push_str(&format!("{nl}{} TXT x{nl}", "l".repeat(n)));
     }
+    if chance(r, 5) {
+        // a very long *plain* field (TTL, preference, port, serial: integers take any number of
+        // leading zeros) in the middle of the file: it starts somewhere inside the reader's buffer
+        // and runs past its end, so the buffer has to be compacted and grown while the field is read
+        let n = *pick(r, &[4_000usize, 8_193, 12_000, 16_380, 16_400, 20_000, 33_000, 65_530, 65_540]);
+        let z = "0".repeat(n);
+        let line = match r.below(4) {
+            0 => format!("padded {z}300 IN A 192.0.2.7"),
+            1 => format!("padded MX {z}10 mail"),
+            2 => format!("padded WKS 192.0.2.1 TCP {z}25"),
+            _ => format!("padded SRV 1 2 {z}53 target"),
+        };
+        // somewhere in the first lines (so that data precedes and follows it)
+        let mut lines: Vec<&str> = t.split_inclusive('\n').collect();
+        let at = if lines.len() > 2 { 2 + r.below(lines.len() as u64 - 2) as usize } else { lines.len() };
+        let line = format!("{line}{nl}");
+        lines.insert(at.min(lines.len()), &line);
+        t = lines.concat();
+    }
     t.into_bytes()
 }
 fn gen_soup(r: &mut SplitMix) -> Vec<u8> {
